@@ -406,8 +406,9 @@ class SymList:
     are modelled, so any other mutation puts the function out of reach."""
     qv_value = True
 
-    def __init__(self, prefix_len, name=""):
+    def __init__(self, prefix_len, name="", entry=None):
         self.prefix_len, self.items, self.name = prefix_len, [], name
+        self.entry = entry          # optional closed form  j -> value  of the abstract prefix
 
     def append(self, v):
         self.items.append(v)
